@@ -1478,3 +1478,40 @@ func exhaustiveEnumeration(r *core.Run, rule, m string, funcs []*ssa.Function) i
 	}
 	return nIter
 }
+
+// isAccessorFn: a thin store accessor — its only effect is one direct store operation (SetX / RemoveX / the
+// index-level helpers). Rules judge the callers of accessors; a function that performs a store operation directly
+// next to other effects is a unit of its own.
+func isAccessorFn(p *core.Program, fn *ssa.Function) bool {
+	effs := p.Effects(fn)
+	n := 0
+	for _, e := range effs {
+		if !e.Direct {
+			return false
+		}
+		n += len(e.Store)
+	}
+	return n == 1
+}
+
+// performsDirectly: effect e is the store operation itself (kind on name) in a function that is not a thin accessor,
+// or a call of a thin accessor performing it.
+func performsDirectly(p *core.Program, fn *ssa.Function, e *core.Effect, kind, name string) bool {
+	if !effHas(e, kind, name) {
+		return false
+	}
+	if e.Direct {
+		return !isAccessorFn(p, fn)
+	}
+	for _, c := range e.Callees {
+		if !isAccessorFn(p, c) {
+			continue // a unit of its own, judged there
+		}
+		for _, o := range p.StoreOps(c) {
+			if o.Kind == kind && o.Module+"/"+o.Prefix == name {
+				return true
+			}
+		}
+	}
+	return false
+}
